@@ -68,11 +68,34 @@ def traceback_programs(tier):
   return out
 
 
+# Several errors on one line, one per binding of a variable that got all its bindings at one CFG node
+# (a union-annotated parameter): their order in the report follows the order of the bindings.
+UNION_MEMBERS = ["int", "str", "bytes", "None", "list[int]", "A"]
+UNION_USES = ["x.nope", "x()", "x + 1j", "x['k']", "len(x)"]
+
+
+def union_error_programs(tier):
+  import itertools
+  out = []
+  sizes = (2, 3) if tier == "quick" else (2, 3, 4)
+  for n in sizes:
+    for combo in itertools.combinations(UNION_MEMBERS, n):
+      if tier == "quick" and n == 3 and "A" not in combo and "None" not in combo:
+        continue
+      body = "class A: pass\n"
+      for k, use in enumerate(UNION_USES):
+        body += "def f%d(x: %s):\n  return %s\n" % (k, " | ".join(combo), use)
+      body += "def g(x: %s, y: %s):\n  return x.nope, y.nope2, x.nope3\n" % (" | ".join(combo), " | ".join(reversed(combo)))
+      out.append(("uerr:" + "|".join(combo), body))
+  return out
+
+
 def programs(tier):
   from vk import defspace
   from vk.checks import c02, c03
   out = [(progspace.pid(s), s) for s in ERR + POOL]
   out += traceback_programs(tier)
+  out += union_error_programs(tier)
   # error-producing statements of every adjustable class (C03's PS-err), each alone
   ctxs = ("mod",) if tier == "quick" else ("mod", "fnret", "meth")
   out += [("pserr:%s/%s" % (c, t[0]), c03.render(c, (t[0],))) for c in ctxs for t in c03.TEMPLATES]
@@ -81,7 +104,10 @@ def programs(tier):
   anns = (anns[::8] if tier == "quick" else anns) + c02.LITERAL_ANNOTATIONS
   out += [("c02:" + a, c02.build_program(a)[0]) for a in anns]
   # definition-rich programs (PS-def)
-  dps = defspace.programs("quick" if tier == "quick" else "thorough")
+  dps = defspace.programs("quick")
+  if tier != "quick":   # thorough: the quick PS-def set plus every class shape (the full PS-def set x all configurations is hours)
+    have = {i for i, _ in dps}
+    dps += [(i, s2) for i, s2 in defspace.class_shapes("thorough") if i not in have]
   if tier == "quick":
     dps = [(i, s2) for i, s2 in dps if i.startswith("alone:") or
            (i.startswith(("flow:outside<-", "flow:initattr<-", "flow:union2<-")) and i.rsplit("#", 1)[1] in "012")]
@@ -121,10 +147,11 @@ def configs(tier, hashseed):
     chains = {0: [("fresh-fwd", "fresh", "fwd", 8, 1), ("reuse-rev", "reuse", "rev", 7, 1)],
               1: [("reuse-rot", "reuse", "rot", 5, 1)], 2: [("fresh-rev", "fresh", "rev", 5, 1)]}
     return [("cold", "cold", "fwd", 4, 8)] + chains.get(hs, chains[1])
-  out = [("cold", "cold", "fwd", 32, 1 if hs == 0 else 4),
-         ("fresh-fwd", "fresh", "fwd", 16, 1), ("reuse-rev", "reuse", "rev", 13, 1),
-         ("fresh-rot", "fresh", "rot", 11, 1), ("reuse-fwd", "reuse", "fwd", 7, 1)]
-  return out
+  if hs == 0:
+    return [("cold", "cold", "fwd", 32, 1), ("fresh-fwd", "fresh", "fwd", 16, 1), ("reuse-rev", "reuse", "rev", 13, 1),
+            ("fresh-rot", "fresh", "rot", 11, 1), ("reuse-fwd", "reuse", "fwd", 7, 1)]
+  chain = [("reuse-rot", "reuse", "rot", 5, 1), ("fresh-rev", "fresh", "rev", 5, 1)][hs % 2]
+  return [("cold", "cold", "fwd", 8, 4), chain]
 
 
 def ordered(progs, order):
@@ -281,7 +308,7 @@ def child_main(argv):
   """Entry point of the per-seed interpreter: vk.checks.c04 --child tier out.json"""
   global REPS
   tier, outp = argv
-  REPS = 2 if tier == "quick" else 3
+  REPS = 2
   boot.load()
   from pytype import io, load_pytd  # import only; nothing analysed in this process
   from pytype.imports import pickle_utils
@@ -380,7 +407,7 @@ def run(rep, tier, seed):
                   "configurations_per_seed": {str(s): [list(c) for c in cs] for s, cs in confs.items()},
                   "chains": sum(len(chunks_of(progs, o, n, st)) for s in seeds for _, m, o, n, st in confs[s] if m != "cold"),
                   "program_families": {fam: sum(1 for i, _ in progs if i.startswith(fam)) for fam in
-                                       ("tb:", "pserr:", "c02:", "alone:", "flow:", "pair:")}})
+                                       ("tb:", "uerr:", "pserr:", "c02:", "alone:", "flow:", "pair:", "cls:")}})
   rep.evaluations = transitions
   s0 = data[seeds[0]]
   rep.nontrivial_extra = sum(1 for i, _ in progs if any(r.get("nerr") for o in s0.values() for r in o.get(i, [])))
